@@ -125,6 +125,7 @@ pub fn label_of(l: &str, pe_tx: &mut usize, pe_rx: &mut usize) -> String {
     if l == "HOOK take" { return "hook1".to_owned(); }
     if l == "HOOK restore" { return "hook0".to_owned(); }
     if l == "EXIT" { return "exit".to_owned(); }
+    if l == "POLL" { return "poll".to_owned(); }
     if let Some(r) = l.strip_prefix("VERDICT ") { return format!("verdict {r}"); }
     if let Some(r) = l.strip_prefix("CB ") {
         let t: Vec<&str> = r.split(' ').collect();
